@@ -71,6 +71,9 @@ def call_forms(body_src, args_src, arity, atoms_only):
     if arity == 1:
         forms["each"] = f"f::{{{body_src}}};*f'[{args_src[0]}]" if not atoms_only else f"f::{{{body_src}}};*f',{args_src[0]}"
         forms["recursive"] = f"r::{{:[y>0;.f(x;y-1);{body_src}]}};r({args_src[0]};2)"
+        # recursion through .f with a declared local: every activation has its own t (the outermost still sees t = 2 afterwards)
+        forms["recursive-local"] = f"r::{{[t];t::y;:[y>0;.f(x;y-1);0];:[t=2;{body_src};:inner]}};r({args_src[0]};2)"
+        forms["recursive-local-by-name"] = f"r::{{[t];t::y;:[y>0;r(x;y-1);0];:[t=2;{body_src};:inner]}};r({args_src[0]};2)"
     return forms
 
 
